@@ -162,9 +162,15 @@ class MDPView:
         return min(rs), max(rs)
 
 
-def make_mdp(view, ctx=None, dist='dict'):
+def make_mdp(view, ctx=None, dist='dict', alias='fresh'):
     """Expose the spec through msdm's QuickTabularMDP.  `ctx` (optional)
-    receives call-back notifications: ctx.cb(name, *ids)."""
+    receives call-back notifications: ctx.cb(name, *ids).
+
+    alias: what `actions(s)` hands out (user models do all three):
+      'fresh'  a new list per call;
+      'cached' the model's own per-state list object, the same one on every call;
+      'shared' one list object for all states when the action sets are uniform
+               (like QuickTabularMDP(actions=[...])), else as 'cached'."""
     from msdm.core.mdp import QuickTabularMDP
     from msdm.core.distributions import DictDistribution
     sk, ak, sid, aid = view.sk, view.ak, view.sid, view.aid
@@ -182,9 +188,17 @@ def make_mdp(view, ctx=None, dist='dict'):
         cb('reward', sid[s], aid[a], sid[ns])
         return view.R[sid[s], aid[a], sid[ns]]
 
+    own_lists = {}
+    uniform = len({tuple(view.A[s]) for s in view.A}) == 1
+
     def actions(s):
         cb('actions', sid[s])
-        return [ak[a] for a in view.A[sid[s]]]
+        if alias == 'fresh':
+            return [ak[a] for a in view.A[sid[s]]]
+        key = 'all' if (alias == 'shared' and uniform) else sid[s]
+        if key not in own_lists:
+            own_lists[key] = [ak[a] for a in view.A[sid[s]]]
+        return own_lists[key]
 
     def initial_state_dist():
         cb('initial_state_dist')
